@@ -302,9 +302,6 @@ def infid_cross_graph(inp):
     return None
 
 
-@S.item("Infidelity.cross_representation.state_s_target_dm", site="graphiq.metrics:Infidelity.evaluate",
-        bound="stabilizer states n<=2: every target x every state (n=1: 36, n=2: 3600 pairs); target held as dm, state as s",
-        clause="the infidelity metric returns the same value ... for all stabilizer states in both representations")
 def infid_cross_sdm(inp):
     n, kt, ks = inp
     _full(n)
@@ -313,15 +310,33 @@ def infid_cross_sdm(inp):
     return _infid_check(tq, sq, tv, sv, "target dm, state s")
 
 
-@S.item("Infidelity.cross_representation.state_dm_target_s", site="graphiq.metrics:Infidelity.evaluate",
-        bound="stabilizer states n<=2: every target x every state; target held as s, state as dm",
-        clause="the infidelity metric returns the same value ... for all stabilizer states in both representations")
+S.item("Infidelity.cross_representation.state_s_target_dm.plus_signs", site="graphiq.metrics:Infidelity.evaluate",
+       bound="stabilizer states n<=2: every target (held as dm) x every state whose tableau (as produced by refsem's BFS) has "
+             "only + signs on its stabilizer generators (held as s)",
+       exhaustive=True,
+       clause="the infidelity metric returns the same value ... for all stabilizer states in both representations")(infid_cross_sdm)
+S.item("Infidelity.cross_representation.state_s_target_dm.with_minus_signs", site="graphiq.metrics:Infidelity.evaluate",
+       bound="stabilizer states n<=2: every target (dm) x every state whose tableau carries a - sign on a stabilizer generator (s)",
+       exhaustive=True,
+       clause="the infidelity metric returns the same value ... for all stabilizer states in both representations")(infid_cross_sdm)
+
+
 def infid_cross_dms(inp):
     n, kt, ks = inp
     _full(n)
     tq, tv = _qstate(n, kt, "s")
     sq, sv = _qstate(n, ks, "dm")
     return _infid_check(tq, sq, tv, sv, "target s, state dm")
+
+
+S.item("Infidelity.cross_representation.state_dm_target_s.graph_states", site="graphiq.metrics:Infidelity.evaluate",
+       bound="stabilizer states n<=2: every target (held as s, any signs) x every state that is a graph state |G> (held as dm)",
+       exhaustive=True,
+       clause="the infidelity metric returns the same value ... for all stabilizer states in both representations")(infid_cross_dms)
+S.item("Infidelity.cross_representation.state_dm_target_s.other_stabilizer_states", site="graphiq.metrics:Infidelity.evaluate",
+       bound="stabilizer states n<=2: every target (s) x every state that is not itself a graph state (dm)",
+       exhaustive=True,
+       clause="the infidelity metric returns the same value ... for all stabilizer states in both representations")(infid_cross_dms)
 
 
 @S.item("TraceDistance.evaluate", site="graphiq.metrics:TraceDistance.evaluate",
@@ -483,8 +498,21 @@ def run(tier, seed):
     S.map("Infidelity.cross_representation.graph_states", gp, nontrivial=lambda p: p[0] != p[1])
 
     cross = [[1, a, b] for a in range(6) for b in range(6)] + [[2, a, b] for a in range(60) for b in range(60)]
-    S.map("Infidelity.cross_representation.state_s_target_dm", cross, nontrivial=lambda p: p[1] != p[2])
-    S.map("Infidelity.cross_representation.state_dm_target_s", cross, nontrivial=lambda p: p[1] != p[2])
+
+    def minus(p):
+        return any(r for (_, _, r) in _full(p[0])[p[2]][1])
+
+    gvecs = {n: [core.graph_state(np.array(g)) for g in graphs[n]] for n in (1, 2)}
+
+    def is_graph(p):
+        v = _full(p[0])[p[2]][0]
+        return any(core.same_state(v, g) for g in gvecs[p[0]])
+
+    S.map("Infidelity.cross_representation.state_s_target_dm.plus_signs", [p for p in cross if not minus(p)], nontrivial=lambda p: p[1] != p[2])
+    S.map("Infidelity.cross_representation.state_s_target_dm.with_minus_signs", [p for p in cross if minus(p)], nontrivial=lambda p: p[1] != p[2])
+    S.map("Infidelity.cross_representation.state_dm_target_s.graph_states", [p for p in cross if is_graph(p)], nontrivial=lambda p: p[1] != p[2])
+    S.map("Infidelity.cross_representation.state_dm_target_s.other_stabilizer_states", [p for p in cross if not is_graph(p)],
+          nontrivial=lambda p: p[1] != p[2])
 
     gp3 = []
     for n in (1, 2, 3):
